@@ -126,6 +126,14 @@ INT_IO (unsigned char, "c")
 INT_IO (bool, "b")
 INT_IO (size_t, "z")
 
+struct Ord { int v = 0x0101; };        // an Euler<T>::Order value (python: imath.Order), transferred as its integer
+template <> struct IO<Ord>
+{
+    static const char* name () { return "Order"; }
+    static Ord         read (Ctx& c) { Ord o; int v = (int) std::stoll (c.tok ()); if (!c.describe) o.v = v; return o; }
+    static void        write (Ctx& c, Ord o) { c.emit (std::to_string (o.v)); }
+};
+
 template <class T> struct Suffix;
 template <> struct Suffix<float> { static const char* s () { return "f"; } };
 template <> struct Suffix<double> { static const char* s () { return "d"; } };
@@ -388,6 +396,14 @@ template <class V, class T> static void vec_common (const std::string& cls, bool
     BIN (cls, "__ne__", V, V, s != a);
     R (cls, "equalWithAbsError", [] (Ctx& c) { V s = G (V); V a = G (V); T e = G (T); c.put (s.equalWithAbsError (a, e)); });
     R (cls, "equalWithRelError", [] (Ctx& c) { V s = G (V); V a = G (V); T e = G (T); c.put (s.equalWithRelError (a, e)); });
+    // python: v + t, t + v, v - t, t - v, t / v broadcast the scalar to every component (no C++ operator of that shape:
+    // the library expression they stand for is the component-wise operator on V(t))
+    BIN (cls, "__add__", V, T, s + V (a));
+    BIN (cls, "__radd__", V, T, V (a) + s);
+    BIN (cls, "__sub__", V, T, s - V (a));
+    BIN (cls, "__rsub__", V, T, V (a) - s);
+    BIN (cls, "__rdiv__", V, T, V (a) / s);
+    BIN (cls, "__rtruediv__", V, T, V (a) / s);
     (void) isfloat;
 }
 template <class V, class T> static void vec_float (const std::string& cls)
@@ -395,6 +411,8 @@ template <class V, class T> static void vec_float (const std::string& cls)
     UN (cls, "length", V, s.length ());
     UN (cls, "normalized", V, s.normalized ());
     UN (cls, "normalizedNonNull", V, s.normalizedNonNull ());
+    UN (cls, "normalizedExc", V, s.normalizedExc ());          // throws std::domain_error on a null vector: the binding raises
+    MUT (cls, "normalizeExc", V, s.normalizeExc ());
     MUT (cls, "normalize", V, s.normalize ());
     MUT (cls, "normalizeNonNull", V, s.normalizeNonNull ());
     // python: v.orthogonal(t) = orthogonal(v,t); v.reflect(t) = reflect(v,t); v.project(t) = project(t,v)
@@ -422,6 +440,11 @@ template <class T> static void reg_vec (bool isfloat)
     BIN (c2, "__mod__", V2, V2, s % a);
     BIN (c3, "cross", V3, V3, s.cross (a));
     BIN (c3, "__mod__", V3, V3, s % a);
+    if (!isfloat)
+    {
+        R (c3, "closestVertex", [] (Ctx& c) { V3 p = G (V3), v0 = G (V3), v1 = G (V3), v2 = G (V3); c.put (closestVertex (v0, v1, v2, p)); });
+        R (c2, "closestVertex", [] (Ctx& c) { V2 p = G (V2), v0 = G (V2), v1 = G (V2), v2 = G (V2); c.put (closestVertex (v0, v1, v2, p)); });
+    }
     MUT1 (c3, "__imod__", V3, V3, s %= a);
 }
 template <class T> static void reg_vec_float ()
@@ -442,6 +465,9 @@ template <class T> static void reg_vec_float ()
     BIN (c3, "__mul__", V3, Matrix33<T>, s * a);
     BIN (c3, "__mul__", V3, Matrix44<T>, s * a);
     BIN (c4, "__mul__", V4, Matrix44<T>, s * a);
+    // mixed precision: Vec3<T> * Matrix44<S> (templated operator), e.g. V3dArray * M44f
+    BIN (c3, "__mul__", V3, Matrix44<float>, s * a);
+    BIN (c3, "__mul__", V3, Matrix44<double>, s * a);
     MUT1 (c3, "__imul__", V3, Matrix44<T>, s *= a);
     MUT1 (c3, "__imul__", V3, Matrix33<T>, s *= a);
     MUT1 (c4, "__imul__", V4, Matrix44<T>, s *= a);
@@ -483,6 +509,9 @@ template <class T> static void reg_mat ()
     typedef Vec2<T>     V2;
     typedef Vec3<T>     V3;
     std::string         c2 = IO<M2>::name (), c3 = IO<M3>::name (), c4 = IO<M4>::name ();
+    R (c2, "__init__", [] (Ctx& c) { M2 m; for (int i = 0; i < 2; ++i) for (int j = 0; j < 2; ++j) m[i][j] = G (T); c.put (m); });
+    R (c3, "__init__", [] (Ctx& c) { M3 m; for (int i = 0; i < 3; ++i) for (int j = 0; j < 3; ++j) m[i][j] = G (T); c.put (m); });
+    R (c4, "__init__", [] (Ctx& c) { M4 m; for (int i = 0; i < 4; ++i) for (int j = 0; j < 4; ++j) m[i][j] = G (T); c.put (m); });
     mat_common<M2, T> (c2);
     mat_common<M3, T> (c3);
     mat_common<M4, T> (c4);
@@ -493,6 +522,17 @@ template <class T> static void reg_mat ()
     MUT (c2, "invert", M2, s.invert (true));
     MUT (c3, "invert", M3, s.invert (true));
     MUT (c4, "invert", M4, s.invert (true));
+    // explicit singExc argument: inverse(False) is the C++ default (identity for a singular matrix), what the array loops use
+    BIN (c2, "inverse", M2, bool, s.inverse (a));
+    BIN (c3, "inverse", M3, bool, s.inverse (a));
+    BIN (c4, "inverse", M4, bool, s.inverse (a));
+    MUT1 (c2, "invert", M2, bool, s.invert (a));
+    MUT1 (c3, "invert", M3, bool, s.invert (a));
+    MUT1 (c4, "invert", M4, bool, s.invert (a));
+    BIN (c3, "gjInverse", M3, bool, s.gjInverse (a));
+    BIN (c4, "gjInverse", M4, bool, s.gjInverse (a));
+    MUT1 (c3, "gjInvert", M3, bool, s.gjInvert (a));
+    MUT1 (c4, "gjInvert", M4, bool, s.gjInvert (a));
     UN (c3, "gjInverse", M3, s.gjInverse (true));
     UN (c4, "gjInverse", M4, s.gjInverse (true));
     MUT (c3, "gjInvert", M3, s.gjInvert (true));
@@ -510,6 +550,19 @@ template <class T> static void reg_mat ()
     R (c4, "multVecMatrix", [] (Ctx& c) { M4 s = G (M4); V3 v = G (V3); V3 r; s.multVecMatrix (v, r); c.put (r); });
     R (c3, "multDirMatrix", [] (Ctx& c) { M3 s = G (M3); V2 v = G (V2); V2 r; s.multDirMatrix (v, r); c.put (r); });
     R (c3, "multVecMatrix", [] (Ctx& c) { M3 s = G (M3); V2 v = G (V2); V2 r; s.multVecMatrix (v, r); c.put (r); });
+    // the source vector may have the other precision (templated on the vector's element type)
+    R (c4, "multDirMatrix", [] (Ctx& c) { M4 s = G (M4); Vec3<float> v = G (Vec3<float>); Vec3<float> r; s.multDirMatrix (v, r); c.put (r); });
+    R (c4, "multDirMatrix", [] (Ctx& c) { M4 s = G (M4); Vec3<double> v = G (Vec3<double>); Vec3<double> r; s.multDirMatrix (v, r); c.put (r); });
+    R (c4, "multVecMatrix", [] (Ctx& c) { M4 s = G (M4); Vec3<float> v = G (Vec3<float>); Vec3<float> r; s.multVecMatrix (v, r); c.put (r); });
+    R (c4, "multVecMatrix", [] (Ctx& c) { M4 s = G (M4); Vec3<double> v = G (Vec3<double>); Vec3<double> r; s.multVecMatrix (v, r); c.put (r); });
+    R (c3, "multDirMatrix", [] (Ctx& c) { M3 s = G (M3); Vec2<float> v = G (Vec2<float>); Vec2<float> r; s.multDirMatrix (v, r); c.put (r); });
+    R (c3, "multDirMatrix", [] (Ctx& c) { M3 s = G (M3); Vec2<double> v = G (Vec2<double>); Vec2<double> r; s.multDirMatrix (v, r); c.put (r); });
+    R (c3, "multVecMatrix", [] (Ctx& c) { M3 s = G (M3); Vec2<float> v = G (Vec2<float>); Vec2<float> r; s.multVecMatrix (v, r); c.put (r); });
+    R (c3, "multVecMatrix", [] (Ctx& c) { M3 s = G (M3); Vec2<double> v = G (Vec2<double>); Vec2<double> r; s.multVecMatrix (v, r); c.put (r); });
+    R (c2, "multDirMatrix", [] (Ctx& c) { M2 s = G (M2); Vec2<float> v = G (Vec2<float>); Vec2<float> r; s.multDirMatrix (v, r); c.put (r); });
+    R (c2, "multDirMatrix", [] (Ctx& c) { M2 s = G (M2); Vec2<double> v = G (Vec2<double>); Vec2<double> r; s.multDirMatrix (v, r); c.put (r); });
+    R (c4, "singularValueDecomposition", [] (Ctx& c) { M4 s = G (M4); bool fp = G (bool); M4 U, V; Vec4<T> S; jacobiSVD (s, U, S, V, std::numeric_limits<T>::epsilon (), fp); c.put (U); c.put (S); c.put (V); });
+    R (c3, "singularValueDecomposition", [] (Ctx& c) { M3 s = G (M3); bool fp = G (bool); M3 U, V; Vec3<T> S; jacobiSVD (s, U, S, V, std::numeric_limits<T>::epsilon (), fp); c.put (U); c.put (S); c.put (V); });
     UN (c4, "translation", M4, s.translation ());
     UN (c3, "translation", M3, s.translation ());
     MUT1 (c4, "setTranslation", M4, V3, s.setTranslation (a));
@@ -584,6 +637,8 @@ template <class T> static void reg_quat ()
     UN (cq, "r", Q, s.r);
     UN (cq, "v", Q, s.v);
     BIN (cq, "rotateVector", Q, V3, s.rotateVector (a));
+    // python: v * q is v * q.toMatrix44() (rmulVec3; equal to the library's operator*(Vec3,Quat) up to rounding)
+    BIN (cq, "__rmul__", Q, V3, a * s.toMatrix44 ());
     R (cq, "slerp", [] (Ctx& c) { Q s = G (Q), o = G (Q); T t = G (T); c.put (slerp (s, o, t)); });
     R (cq, "slerpShortestArc", [] (Ctx& c) { Q s = G (Q), o = G (Q); T t = G (T); c.put (slerpShortestArc (s, o, t)); });
     R (cq, "setAxisAngle", [] (Ctx& c) { Q s = G (Q); V3 ax = G (V3); T an = G (T); s.setAxisAngle (ax, an); c.put (s); });
@@ -668,6 +723,8 @@ static void reg_color_float ()
     typedef Color3<float> C3;
     typedef Color4<float> C4;
     // python: c.rgb2hsv() / c.hsv2rgb() are methods returning the converted colour
+    R ("Color3f", "__init__", [] (Ctx& c) { Vec3<float> v = G (Vec3<float>); c.put (C3 (v)); });
+    R ("Color3f", "__init__", [] (Ctx& c) { Vec3<double> v = G (Vec3<double>); c.put (C3 (Vec3<float> (v))); });
     UN ("Color3f", "rgb2hsv", C3, C3 (rgb2hsv (Vec3<float> (s))));
     UN ("Color3f", "hsv2rgb", C3, C3 (hsv2rgb (Vec3<float> (s))));
     UN ("Color4f", "rgb2hsv", C4, rgb2hsv (s));
@@ -678,6 +735,14 @@ template <class T> static void reg_euler ()
 {
     typedef Euler<T> E;
     std::string      ce = IO<E>::name ();
+    typedef typename E::Order EO;
+    R (ce, "__init__", [] (Ctx& c) { Vec3<T> v = G (Vec3<T>); c.put (E (v)); });
+    R (ce, "__init__", [] (Ctx& c) { Vec3<T> v = G (Vec3<T>); Ord o = G (Ord); c.put (E (v, (EO) o.v)); });
+    R (ce, "__init__", [] (Ctx& c) { T x = G (T), y = G (T), z = G (T); Ord o = G (Ord); c.put (E (x, y, z, (EO) o.v)); });
+    R (ce, "__init__", [] (Ctx& c) { Matrix33<T> m = G (Matrix33<T>); c.put (E (m)); });
+    R (ce, "__init__", [] (Ctx& c) { Matrix44<T> m = G (Matrix44<T>); c.put (E (m)); });
+    R (ce, "__init__", [] (Ctx& c) { Quat<T> q = G (Quat<T>); E e; e.extract (q); c.put (e); });
+    R (std::string ("Quat") + Suffix<T>::s (), "__init__", [] (Ctx& c) { E e = G (E); c.put (e.toQuat ()); });
     UN (ce, "toMatrix33", E, s.toMatrix33 ());
     UN (ce, "toMatrix44", E, s.toMatrix44 ());
     UN (ce, "toQuat", E, s.toQuat ());
@@ -691,6 +756,8 @@ template <class T> static void reg_euler ()
     MUT1 (ce, "extract", E, Quat<T>, s.extract (a));
     MUT1 (ce, "setXYZVector", E, Vec3<T>, s.setXYZVector (a));
     MUT1 (ce, "makeNear", E, E, s.makeNear (a));
+    BIN (ce, "__eq__", E, E, s == a);
+    BIN (ce, "__ne__", E, E, s != a);
 }
 
 template <class T> static void reg_frustum ()
@@ -756,6 +823,35 @@ template <class T> static void reg_line_plane ()
     BIN (cp, "reflectVector", P, V3, s.reflectVector (a));
     UN (cp, "__neg__", P, -s);
     BIN (cp, "__mul__", P, Matrix44<T>, s * a);
+}
+
+template <class T> static void reg_shear ()
+{
+    typedef Shear6<T> S;
+    std::string       cs = IO<S>::name ();
+    R (cs, "__init__", [] (Ctx& c) { T a = G (T), b = G (T), d = G (T), e = G (T), f = G (T), g = G (T); c.put (S (a, b, d, e, f, g)); });
+    R (cs, "__init__", [] (Ctx& c) { T a = G (T), b = G (T), d = G (T); c.put (S (a, b, d)); });
+    BIN (cs, "__add__", S, S, s + a);
+    BIN (cs, "__sub__", S, S, s - a);
+    BIN (cs, "__mul__", S, S, s * a);
+    BIN (cs, "__mul__", S, T, s * a);
+    BIN (cs, "__rmul__", S, T, a * s);
+    BIN (cs, "__div__", S, S, s / a);
+    BIN (cs, "__div__", S, T, s / a);
+    BIN (cs, "__truediv__", S, S, s / a);
+    BIN (cs, "__truediv__", S, T, s / a);
+    UN (cs, "__neg__", S, -s);
+    MUT (cs, "negate", S, s.negate ());
+    MUT1 (cs, "__iadd__", S, S, s += a);
+    MUT1 (cs, "__isub__", S, S, s -= a);
+    MUT1 (cs, "__imul__", S, S, s *= a);
+    MUT1 (cs, "__imul__", S, T, s *= a);
+    MUT1 (cs, "__idiv__", S, S, s /= a);
+    MUT1 (cs, "__idiv__", S, T, s /= a);
+    BIN (cs, "__eq__", S, S, s == a);
+    BIN (cs, "__ne__", S, S, s != a);
+    R (cs, "equalWithAbsError", [] (Ctx& c) { S s = G (S); S a = G (S); T e = G (T); c.put (s.equalWithAbsError (a, e)); });
+    R (cs, "equalWithRelError", [] (Ctx& c) { S s = G (S); S a = G (S); T e = G (T); c.put (s.equalWithRelError (a, e)); });
 }
 
 template <class T> static void reg_fun_fp ()
@@ -826,7 +922,21 @@ static void reg_all ()
         BIN ("V4c", "__add__", V4c, V4c, s + a);
         BIN ("V4c", "__sub__", V4c, V4c, s - a);
         BIN ("V4c", "__mul__", V4c, V4c, s * a);
+        UN ("V3c", "length2", V3c, s.length2 ());
+        UN ("V4c", "length2", V4c, s.length2 ());
+        BIN ("V3c", "__eq__", V3c, V3c, s == a);
+        BIN ("V4c", "__eq__", V4c, V4c, s == a);
+        BIN ("V3c", "__ne__", V3c, V3c, s != a);
+        BIN ("V4c", "__ne__", V4c, V4c, s != a);
+        BIN ("V3c", "__div__", V3c, V3c, s / a);
+        BIN ("V4c", "__div__", V4c, V4c, s / a);
+        BIN ("V3c", "__mul__", V3c, T, s * a);
+        BIN ("V4c", "__mul__", V4c, T, s * a);
+        UN ("V3c", "__neg__", V3c, -s);
+        UN ("V4c", "__neg__", V4c, -s);
     }
+    reg_shear<float> ();
+    reg_shear<double> ();
     reg_mat<float> ();
     reg_mat<double> ();
     reg_quat<float> ();
